@@ -24,7 +24,7 @@ func regexLiteral(p string) (string, bool, bool) {
 var litAlphabet = []string{`a`, `a.b`, `%`, `_`, `'`, `a'`, `\`, `\\`, `"`, `(`}
 
 // regexes for line filters (valid RE2; some are plain literals and take the LIKE path in the planner)
-var lineRegexes = []string{`a`, `a.b`, `a\.b`, `^a`, `b$`, `%`, `_`, `'`, `\\`, `\(`, `"`, `(?i)A`, `(?i)A.B`, `x|%`, `a'`, `z.*z`}
+var lineRegexes = []string{``, `a`, `a.b`, `a\.b`, `^a`, `b$`, `%`, `_`, `'`, `\\`, `\(`, `"`, `(?i)A`, `(?i)A.B`, `x|%`, `a'`, `z.*z`}
 
 // label values used by the hostile stream family
 var hostileLabelValues = []string{`a.b`, `%`, `_`, `'`, `a'`, `\`, `\\`, `"`, `(`}
@@ -78,7 +78,8 @@ func lineFilterAtoms(core bool) []Stage {
 		for _, v := range litAlphabet {
 			out = append(out, Stage{Kind: "line", Op: op, Val: v})
 		}
-		out = append(out, Stage{Kind: "line", Op: op, Val: "ab"}, Stage{Kind: "line", Op: op, Val: `'a`}, Stage{Kind: "line", Op: op, Val: `a\`}, Stage{Kind: "line", Op: op, Val: `''`})
+		out = append(out, Stage{Kind: "line", Op: op, Val: "ab"}, Stage{Kind: "line", Op: op, Val: `'a`}, Stage{Kind: "line", Op: op, Val: `a\`}, Stage{Kind: "line", Op: op, Val: `''`},
+			Stage{Kind: "line", Op: op, Val: ""}, Stage{Kind: "line", Op: op, Val: `%a`}, Stage{Kind: "line", Op: op, Val: `A.B`})
 	}
 	for _, op := range []string{"|~", "!~"} {
 		for _, v := range lineRegexes {
